@@ -48,7 +48,7 @@ BOUNDS = {
         "(1024 assignments each). Block B (K in {I,diag,full,rot} x [eta in {default,0,1/3} with the python "
         "inverter, default eta with the numba inverter]): 7 grid letters (Cartesian/triangle, unperturbed, perturbed, affine) x (16 side-wise "
         "assignments U all single-face flips of all-Dir and all-Neu). Block P (periodic map): Tensor 2x2 /per-x, /per-y, "
-        "Tensor 3x2 /per-xy, C(3,3) /per-y, Tensor 3x2 /per-y *1e3 x 4 K x eta {default,1/3} x all assignments. Block S: "
+        "Tensor 3x2 /per-xy, C(3,3) /per-y, Tensor 3x2 /per-y *1e3 x 4 K x default eta x all assignments. Block S: "
         "scale 1e-3 / 1e3 on perturbed letters and eta = 0.25. Purity digest on every evaluation, reuse on every 4th."
     ),
     "thorough": (
@@ -130,8 +130,8 @@ def cases(tier):
     for spec in (dict(T22, periodic=[0]), dict(T22, periodic=[1]), dict(T32, periodic=[0, 1]),
                  {"kind": "C", "n": [3, 3], "periodic": [1]}, dict(T32, periodic=[1], scale=1e3)):
         for K in G.K_LETTERS:
-            for eta in (None, 1.0 / 3.0):
-                _emit(out, spec, K, eta, "python", "all", 64)
+            # default eta only: a non-zero eta together with a periodic map is outside the statement
+            _emit(out, spec, K, None, "python", "all", 64)
         _emit(out, spec, "full", None, "numba", "all", 64)
 
     # ---- Block S: scale axis and a non-default scalar eta
